@@ -106,7 +106,7 @@ def run_partition(args):
     ex.active = set(active)
     ex.tier = tier
     ex.keep_models = h.validate_models
-    with symrun.patched(*h.patches(params)):
+    with symrun.patched(*(list(h.patches(params)) + list(h.stubs(params)))):
       ex.run(lambda e: h.body(e, params))
     out.update(paths=ex.paths, decisions=ex.decisions, queries=ex.queries, proved=ex.proved,
                solver_s=round(ex.solver_s, 3), exhausted=ex.exhausted, inconclusive=ex.inconclusive,
